@@ -126,8 +126,10 @@ def parse_fields(line):
 
 def _impl_worker(case):
     from harness import impl
+    import io, contextlib
     try:
-        return impl.run_case(case)
+        with contextlib.redirect_stdout(io.StringIO()):
+            return impl.run_case(case)
     except Exception as exc:  # harness-level failure
         return {'setup': {'status': 'harness-error', 'msg': repr(exc)}, 'calls': []}
 
